@@ -565,3 +565,8 @@ SPECS['C06']['obligations'] = SPECS['C06']['obligations'] + _pair('c06', 'text_c
 SPECS['C12']['obligations'] = SPECS['C12']['obligations'] + _find('C06', 'ob_text_codepoints') + _find('C06', 'ob_dtime_year')
 SPECS['C17']['obligations'] = SPECS['C17']['obligations'] + _pair('c11', 'check_data', (120, 300), '8 dtypes x scalar / width 1..3 x mode', ['LogicalFile._check_data'])
 SPECS['C17']['stubs'] = SPECS['C17']['stubs'] + NP_STUBS
+
+_wwiring = _pair('c10', 'write_wiring', (120, 300), 'label maximum vs constructor argument (own label or not, label changed after construction), chunk sizes, window: symbolic',
+                 ['DLISFile.__init__', 'DLISFile.write'], replay=IO + 'replay_write_wiring', validate=IO + 'replay_write_wiring')
+for _p in ('C01', 'C10', 'C15'):
+    SPECS[_p]['obligations'] = SPECS[_p]['obligations'] + _wwiring
